@@ -1,12 +1,14 @@
 ---------------------------- MODULE TraceDumpReq ----------------------------
-(* Trace validation for C07 (request dumps): one record per header line of a request sent to a real
-   httpp.Server whose logger captured the handlerLogger dump; TLC evaluates DumpObs.            *)
+(* Trace validation for C07 (request dumps): one record per header line of a request of some protocol
+   version, either given to the real dumpRequest (via = direct) or sent to a real httpp.Server (plain
+   TCP for HTTP/1.x, TLS + h2 for HTTP/2.0) whose logger captured the handlerLogger dump (via = wire);
+   TLC evaluates DumpObs.                                                                       *)
 EXTENDS DumpReq
 
 Trace == ndJsonDeserialize("C07_dump_trace.ndjson")
 
 VARIABLE l
-TraceInit == l = 0 /\ req = <<>> /\ done = FALSE
+TraceInit == l = 0 /\ req = <<>> /\ proto = "HTTP/1.1" /\ done = FALSE
 TraceNext == l < Len(Trace) /\ l' = l + 1 /\ UNCHANGED vars
 TraceSpec == TraceInit /\ [][TraceNext]_<<l, vars>>
 
